@@ -9,7 +9,7 @@ import (
 )
 
 func init() {
-	Explanations["C17"] = "Decides structural necessary conditions of backend agreement for the layered key-value stores in package chain and the Bolt adapter: (R1) every single-key read that consults a base layer (MemDB.buckets or the wrapped DBBucket.Get) does so only after an overlay miss and on the negative edge of an explicit membership test of the pending-deletes map, and every iterator ranges over both the base layer and the pending puts while guarding each base entry by the puts/dels tests; (R2) put removes the key from the pending deletes and delete removes it from the pending puts on every path; (R3) MemDB.Flush drains and MemDB.Cancel clears both overlays, CacheDB.Flush ends in the backend's Flush after clearing its overlay, CacheDB.Cancel cancels both layers, and BoltChainDB.Flush/Cancel commit/roll back and reset the single open write transaction which every bucket access obtains through one helper. NOT decided: equality of results over arbitrary operation sequences (needs execution), bbolt's own semantics, iteration order."
+	Explanations["C17"] = "Decides structural necessary conditions of backend agreement for the layered key-value stores in package chain and the Bolt adapter: (R1) every single-key read that consults a base layer (MemDB.buckets or the wrapped DBBucket.Get) does so only after an overlay miss and on the negative edge of an explicit membership test of the pending-deletes map, and every iterator ranges over both the base layer and the pending puts while guarding each base entry by the puts/dels tests; (R2) put removes the key from the pending deletes and delete removes it from the pending puts on every path; (R3) MemDB.Flush drains both overlays and MemDB.Cancel removes their entries (not just the per-bucket contents), CacheDB.Flush ends in the backend's Flush after clearing its overlay and leaves no entry in its field-held scratch lists at any exit, CacheDB.Cancel cancels both layers, and BoltChainDB.Flush/Cancel commit/roll back and reset the single open write transaction which every bucket access obtains through one helper. NOT decided: equality of results over arbitrary operation sequences (needs execution), bbolt's own semantics, iteration order."
 
 	register(&Rule{ID: "C17.R1", Prop: "C17", Floor: 6,
 		Doc: "layer agreement: base-layer reads only after overlay miss and on the negative edge of a pending-delete test; iterators range over base and pending puts and guard base entries",
@@ -378,9 +378,36 @@ func c17r3(c *Ctx) {
 		ob.Check(rangesOver(mf, fld) && mf.MentionsField(mf.Body, false, kv.buckets), nil, "MemDB.Flush does not drain MemDB.%s into the committed buckets", fld.Name())
 	}
 	mc := c.P.Fn("chain", "MemDB", "Cancel")
+	// a bucket created since the last flush exists only as an entry of the two overlay maps, so Cancel has to drop
+	// the entries themselves (delete / clear of the outer map, or a fresh map), not just empty the per-bucket maps
+	discards := func(f *ir.Func, fld *types.Var) bool {
+		found := false
+		ir.Walk(f.Body, false, func(n ast.Node) {
+			if call, ok := n.(*ast.CallExpr); ok {
+				if id, ok := call.Fun.(*ast.Ident); ok {
+					if b, ok := f.Info().Uses[id].(*types.Builtin); ok {
+						switch {
+						case b.Name() == "delete" && len(call.Args) == 2 && lhsField(f, call.Args[0]) == fld:
+							found = true
+						case b.Name() == "clear" && len(call.Args) == 1 && lhsField(f, call.Args[0]) == fld:
+							found = true
+						}
+					}
+				}
+			}
+		})
+		for _, w := range f.WritesIn(f.Body, false) {
+			if lhsField(f, w.LHS) == fld && w.RHS != nil {
+				if _, isIdx := ast.Unparen(w.LHS).(*ast.IndexExpr); !isIdx {
+					found = true
+				}
+			}
+		}
+		return found
+	}
 	for _, fld := range []*types.Var{kv.puts, kv.dels} {
 		ob := c.Ob(mc, "clears:"+fld.Name(), mc.Body.Pos())
-		ob.Check(rangesOver(mc, fld), nil, "MemDB.Cancel does not discard MemDB.%s", fld.Name())
+		ob.Check(discards(mc, fld), nil, "MemDB.Cancel does not remove the entries of MemDB.%s (emptying the per-bucket maps keeps buckets created since the last flush alive, and the next flush makes them durable)", fld.Name())
 	}
 	c.VisitGraph(mf)
 	c.VisitGraph(mc)
@@ -416,6 +443,67 @@ func c17r3(c *Ctx) {
 				}
 			})
 			ob.Check(n >= 2, nil, "CacheDB.Flush ranges over the overlay's %s %d time(s); forwarding to the backend and clearing need one each", fld.Name(), n)
+		}
+		// scratch lists kept in a field between calls (the per-bucket sort buffers) are empty again at every exit:
+		// what one pass (or one flush) leaves behind is otherwise replayed by the next
+		cacheT := c.P.Named("chain", "CacheDB").Underlying().(*types.Struct)
+		for i := 0; i < cacheT.NumFields(); i++ {
+			fld := cacheT.Field(i)
+			mt, ok := fld.Type().Underlying().(*types.Map)
+			if !ok {
+				continue
+			}
+			if _, isSlice := mt.Elem().Underlying().(*types.Slice); !isSlice {
+				continue
+			}
+			var fills []*cfgx.Node
+			resets := map[*cfgx.Node]bool{}
+			for _, n := range g.Nodes {
+				if n.AST == nil {
+					continue
+				}
+				if rs, isRange := n.AST.(*ast.RangeStmt); isRange {
+					if cf.FieldOf(rs.X) != fld {
+						continue
+					}
+					for _, w := range cf.WritesIn(rs.Body, false) {
+						ix, isIdx := ast.Unparen(w.LHS).(*ast.IndexExpr)
+						if !isIdx || cf.FieldOf(ix.X) != fld || w.RHS == nil {
+							continue
+						}
+						if se, isSl := ast.Unparen(w.RHS).(*ast.SliceExpr); (isSl && se.High != nil && isZero(cf, se.High)) || cf.IsNil(w.RHS) {
+							resets[n] = true
+						}
+					}
+					continue
+				}
+				for _, w := range cf.WritesIn(n.AST, false) {
+					ix, isIdx := ast.Unparen(w.LHS).(*ast.IndexExpr)
+					if !isIdx || cf.FieldOf(ix.X) != fld || w.RHS == nil || cf.IsNil(w.RHS) {
+						continue
+					}
+					if se, isSl := ast.Unparen(w.RHS).(*ast.SliceExpr); isSl && se.High != nil && isZero(cf, se.High) {
+						continue
+					}
+					fills = append(fills, n)
+				}
+			}
+			if len(fills) == 0 {
+				continue
+			}
+			ob := c.Ob(cf, "scratch-emptied-before-return:"+fld.Name(), cf.Body.Pos())
+			var st []*cfgx.Visit
+			for _, n := range fills {
+				for _, e := range n.Succs {
+					st = append(st, cfgx.StartAfter(e, 0))
+				}
+			}
+			v, leaks := g.Reach(st, func(n *cfgx.Node) bool { return resets[n] })[g.Exit]
+			var w []string
+			if leaks {
+				w = c.Witness(v)
+			}
+			ob.Check(!leaks, w, "CacheDB.Flush can return with entries left in the scratch lists CacheDB.%s: the next pass or the next flush replays them (a deleted key comes back as an empty value)", fld.Name())
 		}
 		put := c.P.Method("chain", "DBBucket", "Put")
 		del := c.P.Method("chain", "DBBucket", "Delete")
@@ -534,4 +622,9 @@ func c17r3(c *Ctx) {
 			}
 		}
 	}
+}
+
+func isZero(f *ir.Func, e ast.Expr) bool {
+	v, ok := f.ConstInt(e)
+	return ok && v == 0
 }
